@@ -155,7 +155,7 @@ def run_notes(ch):
     f = img.f
     count = ch.pick('count', [2, 0, 1, 5])
     pname = ch.pick('probe.name', ['GNU', None, 'CORE', 'a', 'ab', 'abc', 'abcd', 'abcde', 'LINUX\0\0', 'unknown-owner-1234'])
-    pkind = ch.pick('probe.descriptor', ['abi_tag', 'raw4', 'raw0', 'raw1', 'raw2', 'raw3', 'raw5', 'raw16', 'raw300', 'abi_tag_unknown_os', 'build_id20', 'build_id0',
+    pkind = ch.pick('probe.descriptor', ['abi_tag', 'raw4', 'raw0', 'raw1', 'raw2', 'raw3', 'raw5', 'raw16', 'raw300', 'abi_tag_max', 'abi_tag_unknown_os', 'build_id20', 'build_id0',
                                           'build_id1', 'gold', 'props0', 'props1', 'props3', 'props_stack8', 'props_stack4', 'props_odd12', 'props_unknown', 'prpsinfo',
                                           'ntfile0', 'ntfile1', 'ntfile3'])
     ptype_override = ch.pick('probe.n_type', [None, 0, 2, 6, 0x53494749, 0x46494c46, 0x100, 0xffffffff])
@@ -170,9 +170,10 @@ def run_notes(ch):
     if pkind in raw:
         desc = eg.filler(SEED + 11, raw[pkind])
     elif pkind.startswith('abi_tag'):
-        osv = 0 if pkind == 'abi_tag' else 77
-        desc, ntype = struct.pack(o + 'IIII', osv, 3, 2, 0xffffffff), 1
-        desc_decoder = ('abi', (osv, 3, 2, 0xffffffff))
+        osv = 77 if pkind == 'abi_tag_unknown_os' else 0
+        sub = 0xffffffff if pkind == 'abi_tag_max' else 0
+        desc, ntype = struct.pack(o + 'IIII', osv, 3, 2, sub), 1
+        desc_decoder = ('abi', (osv, 3, 2, sub))
     elif pkind.startswith('build_id'):
         n = int(pkind[8:])
         desc, ntype = eg.filler(SEED + 5, n), 3
